@@ -22,6 +22,7 @@ UNITS = {
     "network/network_connect.c": ("connect_cookie", (), "network_connect_internal", "network_connect_cancel"),
 }
 EAGAIN, EINTR, ECONNABORTED = 11, 4, 103
+REARM_FAILS_TO_COMPLETION = ("network/network_read.c", "network/network_write.c")
 WOULDBLOCK = {"network/network_read.c": {EAGAIN, EINTR}, "network/network_write.c": {EAGAIN, EINTR},
               "network/network_accept.c": {EAGAIN, EINTR, ECONNABORTED}}
 SYSCALL = {"network/network_read.c": "recv", "network/network_write.c": "send", "network/network_accept.c": "accept"}
@@ -303,6 +304,26 @@ def n2_n3(prog, rep, up, L):
             and norm(a.arg(3)) == norm(b.arg(3)) and norm(b.arg(0)) == ("fn", f.name))
     rep.check(same, "N3", "re-arm in %s equals the registration in %s" % (f.name, ctor.name), b.where,
               "initial: %s ; re-arm: %s" % (a.text, b.text), function=f.name, construct="rearm-args")
+    # N3 (read/write): a re-arm that cannot be made still completes the request -- its failure edge reaches the failure
+    # completion docallback(C, -1), its success edge returns 0.  (network_accept returns the registration's status and leaves
+    # the request cancellable: frozen exception, it has no failure completion to route to.)
+    if up in REARM_FAILS_TO_COMPLETION:
+        reb = rearm[0]
+        ok = False
+        for blk in f.blocks.values():
+            if blk.cond is None or len(blk.succs) != 2:
+                continue
+            for op, Lh, R, Le, _ in cond_atoms(blk.cond, True):
+                if Le is not None and Le.strip() is reb and op == "!=" and R == ("c", 0):
+                    t, fl = blk.succs
+                    tv, tseen = f.returns_from(t)
+                    fv, fseen = f.returns_from(fl)
+                    fail_completes = any(c.cls == "CallExpr" and c.callee in L.handlers and c.arg(1) is not None and norm(c.arg(1)) == ("c", -1)
+                                         for bid in tseen for c in f.blocks[bid].elems)
+                    ok = fail_completes and fv == [("c", 0)]
+        rep.check(ok, "N3", "a failed re-arm in %s completes the request with -1" % f.name, reb.where,
+                  "the registration's failure edge must reach the failure completion (one callback with -1), its success edge `return 0`; "
+                  "returning the registration's status ends the request with no callback", function=f.name, construct="rearm-failure")
 
 
 def _edge_reaches(f, start, target):
@@ -375,7 +396,7 @@ def n5(prog, rep, up, L):
     bufarg = strip_ids(norm(sc.arg(1)))
     lenarg = strip_ids(resolve_local(norm(sc.arg(2))))
     C = ("*", ("v", "_"))
-    want_buf = ("+", (".", C, "buf"), (".", C, "bufpos"))
+    want_buf = ir.P((".", C, "buf"), (".", C, "bufpos"))
     want_len = ("-", (".", C, "buflen"), (".", C, "bufpos"))
     rep.check(bufarg == want_buf, "N5", "%s buffer argument" % sysc, sc.where,
               "the transfer must start at buf + bufpos; found %s" % show(bufarg), function=f.name, construct="buf-arg")
